@@ -494,7 +494,12 @@ func BackrefRegex(backrefCache *sync.Map, input string, groups []string) (*regex
 		}
 		// concatenate the leading \\\\ which are already escaped to the quoted match.
 		// The group's text stands as one unit: a quantifier after the back-reference applies to all of it.
-		return rematch[1][:len(rematch[1])-1] + "(?:" + regexp.QuoteMeta(groups[n]) + ")"
+		// A single character is a unit already, and must stay one to be usable in a bracket expression ([^\1]).
+		quoted := regexp.QuoteMeta(groups[n])
+		if utf8.RuneCountInString(groups[n]) != 1 {
+			quoted = "(?:" + quoted + ")"
+		}
+		return rematch[1][:len(rematch[1])-1] + quoted
 	})
 	if err == nil {
 		_, err = syntax.Parse(pattern, syntax.Perl)
